@@ -302,7 +302,15 @@ func (a *Analysis) validOrMinus1(v ssa.Value, x ssa.Value, depth int) bool {
 						okAll = false
 						break
 					}
-					fn, isFn := site.Common().Args[fi].(*ssa.Function)
+					fa := site.Common().Args[fi]
+					for {
+						ct, isCT := fa.(*ssa.ChangeType)
+						if !isCT {
+							break
+						}
+						fa = ct.X
+					}
+					fn, isFn := fa.(*ssa.Function)
 					if !isFn {
 						okAll = false
 						break
@@ -498,7 +506,14 @@ func (a *Analysis) inBounds(o *Obligation) (bool, string) {
 			if in.Low != nil && in.High != nil {
 				lc, l1 := constInt(in.Low)
 				hc, h1 := constInt(in.High)
-				if !(l1 && h1 && lc <= hc) {
+				ordered := l1 && h1 && lc <= hc
+				// x[p : p+c]
+				if bo, ok := in.High.(*ssa.BinOp); ok && bo.Op == token.ADD && bo.X == in.Low {
+					if c, isC := constInt(bo.Y); isC && c >= 0 {
+						ordered = true
+					}
+				}
+				if !ordered {
 					return false, ""
 				}
 			}
